@@ -46,6 +46,11 @@ type IGSpec struct {
 	RefLo   uint64   // dep shapes: first block the referenced integration(s) index (their start)
 	Sources []SrcRef // which sources, with start/stop
 	Disable bool
+	// OrTo (Transfer shapes): a second filter, on event input "to": contains one of
+	// OrToArgs.  Together with AddrFlt the declaration has two active filters, combined
+	// by Agg: "" (filter_agg omitted: OR, like "or") | "or" | "and".
+	OrTo bool   `json:",omitempty"`
+	Agg  string `json:",omitempty"`
 	// PreCols: required columns (ig_name, src_name, block_num, tx_idx, log_idx) that the
 	// user's table.columns ALREADY lists, with the type AddRequiredFields would give them and
 	// - like every ordinary configuration - without a block entry (a configuration written
@@ -68,6 +73,32 @@ type SrcSpec struct {
 }
 
 func hex0x(b []byte) string { return "0x" + hex.EncodeToString(b) }
+
+// OrToArgs: the recipients the OrTo filter accepts (half of the generator's recipients).
+var OrToArgs = [][]byte{Addr(10), Addr(11), Addr(12)}
+
+// accepts: the declared filters of a Transfer shape (address filter, recipient filter)
+// under the declared aggregation.
+func (ig *IGSpec) accepts(l *Log) bool {
+	addrOK := bytes.Equal(l.Addr, TokenAddr)
+	toOK := false
+	for _, a := range OrToArgs {
+		if bytes.Equal(l.To, a) {
+			toOK = true
+		}
+	}
+	switch {
+	case ig.AddrFlt && ig.OrTo && ig.Agg == "and":
+		return addrOK && toOK
+	case ig.AddrFlt && ig.OrTo:
+		return addrOK || toOK
+	case ig.AddrFlt:
+		return addrOK
+	case ig.OrTo:
+		return toOK
+	}
+	return true
+}
 
 type jcol struct {
 	Name string `json:"name"`
@@ -117,6 +148,13 @@ func (ig *IGSpec) jsonConfig() map[string]any {
 			if ig.Ref2 != "" {
 				toExtra = ref(ig.Ref2)
 			}
+		}
+		if ig.OrTo {
+			var args []string
+			for _, a := range OrToArgs {
+				args = append(args, hex0x(a))
+			}
+			toExtra = map[string]any{"filter_op": "contains", "filter_arg": args}
 		}
 		event = map[string]any{"name": "Transfer", "type": "event", "anonymous": false, "inputs": []any{
 			input(true, "from", "address", "f", fromExtra),
@@ -204,6 +242,9 @@ func (ig *IGSpec) jsonConfig() map[string]any {
 		"enabled": !ig.Disable,
 		"sources": srcs,
 		"table":   map[string]any{"name": ig.Table, "columns": cols},
+	}
+	if ig.Agg != "" {
+		m["filter_agg"] = ig.Agg
 	}
 	if block != nil {
 		m["block"] = block
@@ -330,7 +371,7 @@ func (ig *IGSpec) Project(c *Chain, b *Block, src string) []RowVals {
 				if l.Kind != "transfer" {
 					continue
 				}
-				if ig.AddrFlt && !bytes.Equal(l.Addr, TokenAddr) {
+				if !ig.accepts(l) {
 					continue
 				}
 				if ig.Shape == "dep" {
